@@ -11,6 +11,16 @@ COMMON_NOTE = ("Trusted: Coq 8.16.1 kernel (vm_compute, no native_compute), harn
                "Print Assumptions output is copied into the evidence. ")
 
 CHECKS = {
+    "C12": dict(
+        text="Coq refinement theorems: C12_rpms_add_refines (an accepted Rpms.add is exactly one map update at (variant, arch, "
+             "canonical SRPM NEVRA, canonical NEVRA) with the given path/category and lower-cased sigkey; every other entry "
+             "unchanged), C12_rpms_add_accepts_iff (acceptance = conjunction of the documented preconditions), "
+             "C12_*_refusal_class (ValueError / TypeError only), the same for Modules.add and ExtraFiles.add, and "
+             "C12_relative_to_strips/keeps for dump_for_tree. Tied to the code by op-sequence differential runs comparing the "
+             "whole mapping after every call, plus an implementation-side oracle (refused call leaves the mapping unchanged, "
+             "only the addressed cell changes).",
+        note="Argument types as documented (str / str-or-None / list); wrongly typed arguments are outside the modelled domain.",
+        design="DESIGN.md section 6 C12"),
     "C13": dict(
         text="Coq theorems C13_roundtrip / C13_fixpoint / C13_roundtrip_gen over the Gallina model of parse_nvra (all names, epochs, "
              "versions, releases, table arches, directory prefixes, with/without .rpm; unbounded lengths), re-checked against "
